@@ -107,6 +107,15 @@ impl HealthState {
     //@  ensures
     //@    r <==> self.status == HealthStatus::Healthy,                                               // [healthy-iff-status]
     //@end
+    //@fn lib/src/backends.rs HealthState::record_success
+    //@  ret r
+    //@  requires
+    //@    old(self).consecutive_successes < u32::MAX,
+    //@  ensures
+    //@    final(self).consecutive_successes == old(self).consecutive_successes + 1 && final(self).consecutive_failures == 0, // [streaks]
+    //@    r <==> (old(self).status == HealthStatus::Unhealthy && final(self).consecutive_successes >= healthy_threshold),   // [recovery-reported-iff-threshold-crossed]
+    //@    final(self).status == (if r { HealthStatus::Healthy } else { old(self).status }),                                // [status]
+    //@end
     //@fn lib/src/backends.rs HealthState::record_failure
     //@  ret r
     //@  requires
